@@ -65,6 +65,22 @@ func (h H) whoMayCompact(rule string) {
 		h.gate(rule+" only-on-success", site, c, core.MkAtom("snapTaken.err", "==", "nil"))
 	}
 	h.C.Floor(rule+" (compactLog in onSnapshotTaken)", len(h.P.CallsTo(ost, cl)), 1)
+	// the bound of the immediate compaction is a running minimum over the
+	// replications: no replication may be passed over. Every way through an
+	// iteration compares this follower's matchIndex-1 with the bound (either
+	// outcome) or finds matchIndex == 0 (bound 0) — reachable or not: the
+	// replication of an unreachable follower still holds its view
+	if hd := fi.RangeHeader("Raft.ldr.repls", 0); hd != nil && len(h.P.CallsTo(ost, cl)) > 0 {
+		r := fi.LoopBodyMustCross(hd, func(a core.Atom) bool {
+			if strings.Contains(a.L, ".status.matchIndex - 1)") || strings.Contains(a.R, ".status.matchIndex - 1)") {
+				return true
+			}
+			return a.Implies(core.MkAtom("each(Raft.ldr.repls).val.status.matchIndex", "==", "0"))
+		})
+		h.C.Check(rule+" every-follower-bounds", "(*Raft).onSnapshotTaken range ldr.repls", r.OK, h.pos(hd.Instrs[0]), "a replication can be passed over when the bound of the immediate compaction is computed (e.g. an unreachable follower): its view still covers entries that are removed at once: "+r.Witness)
+	} else {
+		h.C.Check(rule+" every-follower-bounds", "(*Raft).onSnapshotTaken range ldr.repls", false, h.fpos(ost), "no loop over the leader's replications bounds the immediate compaction")
+	}
 	// checkLogCompact: every replication has released the range
 	clc := h.fn("raft:(*leader).checkLogCompact")
 	cfi := h.P.Info(clc)
@@ -1026,6 +1042,21 @@ func (h H) snapshotOpenPinned(rule string) {
 			beyond = afi.MustCrossInLoop(hd, in, func(a core.Atom) bool {
 				return a.R == "snapshots.retain" && (a.Op == ">=" || a.Op == ">") || a.L == "snapshots.retain" && (a.Op == "<=" || a.Op == "<")
 			}).OK
+		}
+		// …or the walk starts at the retain count (the position is a loop
+		// counter whose first value is snapshots.retain)
+		if nameCall, ok := c.Common().Args[0].(*ssa.Call); ok && !beyond && len(nameCall.Common().Args) == 2 {
+			var v ssa.Value = nameCall.Common().Args[1]
+			if u, ok := v.(*ssa.UnOp); ok {
+				v = u.X
+			}
+			if ia, ok := v.(*ssa.IndexAddr); ok {
+				for _, l := range phiLeaves(afi, ia.Index) {
+					if strings.Contains(l, "snapshots.retain") {
+						beyond = true
+					}
+				}
+			}
 		}
 		_, locked := als[in]["snapshots.usedMu"]
 		h.C.Check(rule+" prune-spares-used", fmt.Sprintf("(*snapshots).applyRetain remove#%d", nRm), unused && beyond && locked, h.pos(in),
